@@ -231,6 +231,9 @@ def dry_runs():
     yield 'C_spawn_plumbing', dict(echo=True, ign=True, dims=True, pre=True, enc=True, aslist=False, envk=True, cwdk=True)
 
 
+PROBES = []      # representation probes (harness/probes.py) this harness depends on
+
+
 MANIFEST_ENTRY = {
     'level_text': 'Bounded symbolic verification of the real split_command_line (round trip for up to 3 arguments of '
                   '1-2 unconstrained code points, three quoting styles, five separators, leading/trailing whitespace), '
